@@ -4022,6 +4022,11 @@ where
 
         // Fill cavity BEFORE removing old cells
         let new_cells = fill_cavity(&mut self.tds, v_key, &boundary_facets)?;
+
+        #[cfg(delaunay_verif)]
+        if crate::verif::fail("conflict_insert.after_fill_cavity") {
+            return Err(InsertionError::CavityFilling { message: "verif failpoint".to_string() });
+        }
         self.canonicalize_positive_orientation_for_cells(&new_cells)
             .map_err(|e| TdsValidationError::InconsistentDataStructure {
                 message: format!(
@@ -4041,6 +4046,11 @@ where
 
         // Remove conflict cells (now that new cells are wired up)
         let _removed_count = self.tds.remove_cells_by_keys(&conflict_cells);
+
+        #[cfg(delaunay_verif)]
+        if crate::verif::fail("conflict_insert.after_remove_cells") {
+            return Err(InsertionError::CavityFilling { message: "verif failpoint".to_string() });
+        }
 
         // Iteratively repair non-manifold topology until facet sharing is valid
         let mut total_removed = 0;
@@ -4205,6 +4215,10 @@ where
         }
 
         // Connectedness guard (STRUCTURAL SAFETY, NOT Level 3 validation)
+        #[cfg(delaunay_verif)]
+        if crate::verif::fail("conflict_insert.before_connectedness") {
+            return Err(InsertionError::CavityFilling { message: "verif failpoint".to_string() });
+        }
         self.validate_connectedness(&new_cells)?;
 
         // Return hint for next insertion
@@ -4246,6 +4260,11 @@ where
             .tds
             .insert_vertex_with_mapping(vertex)
             .map_err(TriangulationConstructionError::from)?;
+
+        #[cfg(delaunay_verif)]
+        if crate::verif::fail("try_insert.after_insert_vertex") {
+            return Err(InsertionError::CavityFilling { message: "verif failpoint".to_string() });
+        }
 
         // 2. Check if we need to bootstrap the initial simplex
         let num_vertices = self.tds.number_of_vertices();
@@ -4764,6 +4783,10 @@ where
 
                 // Connectedness guard (localized): ensure the newly created cell set is internally
                 // connected and attached to the existing triangulation.
+                #[cfg(delaunay_verif)]
+                if crate::verif::fail("hull_insert.before_connectedness") {
+                    return Err(InsertionError::CavityFilling { message: "verif failpoint".to_string() });
+                }
                 self.validate_connectedness(&new_cells)?;
 
                 // Return vertex key and hint for next insertion
@@ -4880,6 +4903,10 @@ where
                     ),
                 })?;
 
+            #[cfg(delaunay_verif)]
+            if crate::verif::fail("tri_remove.after_fan_fill") {
+                return Err(TdsValidationError::InconsistentDataStructure { message: "verif failpoint".to_string() }.into());
+            }
             // Wire neighbors for the new cells (while both old and new cells exist)
             let external_facets =
                 external_facets_for_boundary(&self.tds, &cells_to_remove, &boundary_facets)
@@ -4900,6 +4927,11 @@ where
             // Note: remove_cells_by_keys() automatically clears neighbor pointers in surviving
             // cells that reference removed cells (sets them to None/boundary)
             let mut cells_removed = self.tds.remove_cells_by_keys(&cells_to_remove);
+
+            #[cfg(delaunay_verif)]
+            if crate::verif::fail("tri_remove.after_remove_cells") {
+                return Err(TdsValidationError::InconsistentDataStructure { message: "verif failpoint".to_string() }.into());
+            }
 
             // Validate facet topology for newly created cells (O(k*D) localized check)
             if let Some(issues) = self.detect_local_facet_issues(&new_cells)? {
@@ -4946,6 +4978,10 @@ where
             // Rebuild vertex-cell incidence for all vertices
             self.tds.assign_incident_cells()?;
 
+            #[cfg(delaunay_verif)]
+            if crate::verif::fail("tri_remove.before_remove_vertex") {
+                return Err(TdsValidationError::InconsistentDataStructure { message: "verif failpoint".to_string() }.into());
+            }
             // Remove the vertex using Tds method (handles internal bookkeeping)
             self.tds.remove_vertex(vertex)?;
 
